@@ -346,6 +346,7 @@ def interleaved(run, rng, n):
         focus_kind = rng.choice(["scan", "reduce"])
         focus_func = rng.choice(["nancumsum"] if focus_kind == "scan" else ["sum", "nansum", "mean", "max", "var", "prod", "nanfirst", "argmax", "count"])
         calls = []
+        shared2d = None
         for _j in range(rng.randint(3, 6)):
             m = rng.randint(4, 10)
             kind, func = (focus_kind, focus_func) if rng.random() < 0.7 else rng.choice(
@@ -365,6 +366,20 @@ def interleaved(run, rng, n):
                  "deferred": bool(chunks) and rng.random() < 0.6}
             if dt in ("uint8", "bool"):
                 c["fill_value"] = 0          # a negative fill cannot be stored in an unsigned result (NumPy itself refuses it)
+            if kind == "reduce" and func in ("sum", "nansum", "mean", "max", "count", "nanmax") and rng.random() < 0.45:
+                # SQUARE 2-D labels that depend on the row, the same chunks on both axes, reduced over one axis or over all of them:
+                # planner results memoised for one layout must not be served for its transpose
+                if shared2d is None:
+                    # one layout per history (the SAME labels and chunks in several calls, only axis / func / data differ)
+                    side = rng.randint(2, 6)
+                    base = sorted(rng.randrange(3) for _ in range(side)) if rng.random() < 0.6 else [rng.randrange(3) for _ in range(side)]
+                    shared2d = {"side": side, "labels": [base[i] for i in range(side) for _ in range(side)] if rng.random() < 0.8 else [rng.randrange(3) for _ in range(side * side)],
+                                "chunks": list(G.random_composition(rng, side, 3))}
+                side = shared2d["side"]
+                c.update(shape=[side, side], labels=shared2d["labels"],
+                         vals=[float(rng.randint(-3, 3)) if dt.startswith("float") else rng.randint(0, 3) for _ in range(side * side)],
+                         chunks=shared2d["chunks"], axis=rng.choice([None, None, 0, 1, -1]), method=rng.choice([None, None, None, "cohorts", "map-reduce"]))
+                c["deferred"] = rng.random() < 0.4
             if func == "var":
                 c["ddof"] = rng.choice([0, 1])
             if kind == "reduce" and rng.random() < 0.2 and func in ("sum", "nansum", "max", "nanmax"):
@@ -421,6 +436,57 @@ def interleaved(run, rng, n):
     run.extra["interleaved_targets_checked_against_fresh_process"] = len(jobs)
 
 
+def layout_histories(run, rng, n):
+    """the SAME n-d labels and chunks requested several times in one process with different axes / reductions / methods (what the
+    planner and the rechunk helpers memoise is keyed by content): EVERY call of the sequence must equal the same call made alone in a
+    fresh interpreter"""
+    from concurrent.futures import ThreadPoolExecutor
+
+    from tools.lib import histcall as H
+
+    jobs = []
+    for _ in range(n):
+        side = rng.randint(2, 8)
+        base = sorted(rng.randrange(3) for _ in range(side)) if rng.random() < 0.7 else [rng.randrange(3) for _ in range(side)]
+        labels = [base[i] for i in range(side) for _ in range(side)] if rng.random() < 0.8 else [rng.randrange(3) for _ in range(side * side)]
+        chunks = list(G.random_composition(rng, side, 3))
+        axes = [0, None] if rng.random() < 0.5 else [rng.choice([0, 1, -1, None]) for _ in range(rng.randint(2, 4))]
+        calls = []
+        for ax in axes:
+            calls.append({"kind": "reduce", "func": rng.choice(["sum", "nanmean", "max", "count"]), "dtype": "float64", "shape": [side, side], "labels": labels,
+                          "vals": [float(rng.randint(-4, 4)) for _ in range(side * side)], "chunks": chunks, "axis": ax,
+                          "method": rng.choice([None, None, "cohorts"]), "deferred": False})
+        with warnings.catch_warnings():
+            warnings.simplefilter("ignore")
+            for i, c in enumerate(calls):
+                try:
+                    got = H.canon(H.compute(H.build(c)))
+                except (ValueError, NotImplementedError, OverflowError) as e:
+                    got = ["refused", type(e).__name__]
+                except Exception as e:  # noqa: BLE001
+                    got = ["internal error", repr(e)[:200]]
+                jobs.append((calls, i, got))
+        run.count(f"layout|{json.dumps(calls, sort_keys=True)}", len(chunks) > 1)
+
+    def fresh(job):
+        calls, t, _ = job
+        rc, txt = C.sh([C.PY, "-m", "tools.lib.histcall", json.dumps(calls[t])], timeout=600, cwd=str(C.ROOT))
+        for line in reversed(txt.strip().splitlines()):
+            if line.startswith("RESULT "):
+                return json.loads(line[7:])
+        return ["fresh process failed", txt[-300:]]
+
+    with ThreadPoolExecutor(8) as ex:
+        fresh_results = list(ex.map(fresh, jobs))
+    for (calls, t, g), f in zip(jobs, fresh_results):
+        if g != f and not (g and g[0] == "internal error" and f and f[0] == "fresh process failed"):
+            run.violation({"property": "C14", "kind": "result depends on the calls made before it in the process (same labels and chunks requested with another axis / "
+                                                    "reduction earlier): it differs from the same call made alone in a fresh interpreter",
+                           "history": calls[:t + 1], "target_index": t, "in_history [dtype, values]": g, "fresh_process [dtype, values]": f,
+                           "how_to_run": "tools/lib/histcall.py: build()+compute() every call of `history` in order; compare the last with `python -m tools.lib.histcall '<call json>'`"}, tag="layout")
+    run.extra["layout_history_calls_checked_against_fresh_process"] = len(jobs)
+
+
 def run(run: C.Run):
     rng = random.Random(run.seed)
     ok = P.front(run, translators=("registry", "tokens", "effects"))
@@ -431,6 +497,7 @@ def run(run: C.Run):
     side_effects(run, rng, 1500 if thorough else 250)
     histories(run, rng, 60 if thorough else 8, 12 if thorough else 6)
     interleaved(run, rng, 120 if thorough else 14)
+    layout_histories(run, rng, 80 if thorough else 16)
     reg_end = snapshot_registry()
     changed = [k for k in reg_start if reg_start[k] != reg_end.get(k)] + [k for k in reg_end if k not in reg_start]
     run.oblige("runtime:registry AGGREGATIONS at the end of the whole run identical to the registry right after import", not changed, str(changed))
